@@ -612,7 +612,7 @@ def _tested_calls(f, operand, depth=10, prog=None):
     out = set()
     seen = set()
 
-    def visit(o, d, pend):
+    def visit(o, d, pend, okpath=False):
         """pend: the innermost user-level field selection still to be applied (index or None)"""
         if d <= 0:
             return
@@ -622,9 +622,11 @@ def _tested_calls(f, operand, depth=10, prog=None):
         l, proj = p[0], [e for e in p[1] if e != '*']
         flds = [e['f'] for e in proj if isinstance(e, dict) and 'f' in e]
         downcast = any(isinstance(e, dict) and 'v' in e for e in proj)
+        if any(isinstance(e, dict) and 'v' in e and e.get('n') in ('Ok', 'Continue', 'Some') for e in proj):
+            okpath = True      # the value is read out of an Ok: an Err built on the way (`?` of a helper that was inlined) is no source
         if flds and not downcast:
             pend = flds[-1] if pend is None else pend
-        k = (l, pend)
+        k = (l, pend, okpath)
         if k in seen:
             return
         seen.add(k)
@@ -632,10 +634,12 @@ def _tested_calls(f, operand, depth=10, prog=None):
             if kind == 'call':
                 c = payload
                 ti = core.fwd_transparent(c)
+                if okpath and c.name == 'from_residual':
+                    continue
                 if ti is not None and c.args:
                     for x in (ti if isinstance(ti, tuple) else (ti,)):
                         if x < len(c.args):
-                            visit(c.args[x], d - 1, pend)
+                            visit(c.args[x], d - 1, pend, okpath)
                     continue
                 tg = [t for t in prog.resolve(c) if t in prog.fns] if prog is not None else []
                 hit = False
@@ -655,17 +659,19 @@ def _tested_calls(f, operand, depth=10, prog=None):
                 continue
             r = payload
             if r['k'] in ('use', 'cast'):
-                visit(r['o'], d - 1, pend)
+                visit(r['o'], d - 1, pend, okpath)
             elif r['k'] == 'un':
-                visit(r['o'], d - 1, pend)
+                visit(r['o'], d - 1, pend, okpath)
+            elif r['k'] == 'agg' and okpath and r.get('variant') in ('Err', 'Break', 'None'):
+                continue
             elif r['k'] == 'agg':
                 if pend is not None and r.get('ak') in ('tuple', 'adt') and len(r['ops']) >= 2 and pend < len(r['ops']) and r.get('adt') not in ('std::result::Result', 'std::option::Option', 'std::task::Poll'):
                     visit(r['ops'][pend], d - 1, None)
                 else:
                     for op in r['ops']:
-                        visit(op, d - 1, pend)
+                        visit(op, d - 1, pend, okpath)
             elif r['k'] == 'ref':
-                visit({'c': r['p']}, d - 1, pend)
+                visit({'c': r['p']}, d - 1, pend, okpath)
     visit(operand, depth, None)
     return out
 
